@@ -60,6 +60,11 @@ def cases(tier, seed):
         for c in (1e-9, 1e-6, 1e-3, 1e3, 1e6):
             out.append({"kind": "scaling", "cls": f"scaling:{c:g}", "n": n, "c": c, "idx": idx, "seed": seed})
             idx += 1
+        # fast-but-not-one-step convergence at small scale and the tightest tolerances: an absolute test on the residual norm would stop early
+        for mcls_ in ("identity_small_lowrank", "near_identity", "clustered_eigs"):
+            for c in (1e-6, 1e-9, 1.0):
+                out.append({"kind": "scaling", "cls": f"scaling:{c:g}:{mcls_}", "n": n, "c": c, "mcls": mcls_, "idx": idx, "seed": seed})
+                idx += 1
         # only the right-hand side is small / large (||b|| << tol, resp. >> 1): the relative residual must not care
         for cb in (1e-8, 1e-4, 1e5):
             out.append({"kind": "scaling", "cls": f"rhs_scaling:{cb:g}", "n": n, "c": 1.0, "cb": cb, "idx": idx, "seed": seed})
@@ -130,6 +135,12 @@ def make_matrix(rng, cls, n, d=None):
     elif cls == "quat_scaled_identity":
         q = refq.randq(rng, 1, 1)[0, 0]
         A = refq.eye(n) * q
+    elif cls == "identity_small_lowrank":
+        # identity plus a SMALL rank-2/3 term: the residual drops by several orders per cycle but not to zero in one step, so intermediate
+        # iterates have residuals of 1e-9 .. 1e-12
+        r = int(rng.integers(2, 4))
+        u = refq.randq(rng, n, min(r, n)); v = refq.randq(rng, n, min(r, n))
+        A = refq.eye(n) + refq.matmul(u, refq.herm(v)) * (10.0 ** -float(rng.integers(2, 5)) / max(refq.fro(u) * refq.fro(v), 1e-300))
     elif cls in ("identity_rank1", "identity_rank2"):
         r = 1 if cls == "identity_rank1" else 2
         u = refq.randq(rng, n, r) * 0.5
@@ -495,20 +506,25 @@ def _scaling(spec, ctx, R):
     """The solution of (cA) x = c b does not depend on c."""
     n, c = spec["n"], spec["c"]
     rng = gen.rng_for(spec["seed"], "c04scal", spec["idx"])
-    A, _ = make_matrix(rng, "generic", n)
+    mcls = spec.get("mcls", "generic")
+    A, _ = make_matrix(rng, mcls, n)
+    if mcls == "identity_rank2_small":
+        pass
     b = refq.randq(rng, n, 1)
+    if mcls != "generic":
+        b = b / refq.fro(b)              # ||b|| = 1: the scaled right-hand side has norm exactly c
     kappa = embed.cond(A)
     floor = 1e3 * n * EPS * kappa
     cb = spec.get("cb")
     if cb is not None:
         b = b * cb                       # the oracle solution scales with it; c stays 1
-    ctx.distinct("scaling", A, b, c)
+    ctx.distinct("scaling", A, b, c, mcls)
     xo = embed.solve(A, b)
-    for tol in (1e-6, 1e-10):
+    for tol in ((1e-6, 1e-10) if mcls == "generic" else (1e-10, 1e-12)):
         for prec in (None, "left_lu"):
             for sp in (False, True):
                 site = f"solve[{prec or 'none'}{',sparse' if sp else ''}]"
-                tags = [f"scale={c:g}"] + ([f"rhs_scale={cb:g}"] if cb is not None else [])
+                tags = [f"scale={c:g}"] + ([f"rhs_scale={cb:g}"] if cb is not None else []) + ([mcls] if mcls != "generic" else [])
                 try:
                     x1, i1 = solve(R, A, b, tol=tol, prec=prec, sparse=sp)
                     xc, ic = solve(R, c * A, c * b, tol=tol, prec=prec, sparse=sp)
